@@ -260,6 +260,7 @@ func builtinsChanged(tr *fp.Tracker) string {
 
 // judge runs the history and the probe in a *new* interpreter of this process and compares with the fresh process.
 func judge(c *Case) (sig, detail string, err error) {
+	interp.Shared() // this process's interpreter is started (built-ins injected) before any fingerprint is taken
 	want, err := freshCached(c.Embedding, c.Probe)
 	if err != nil {
 		return "", "", err
